@@ -11,6 +11,11 @@ use crate::time_types::PollIntervalLimits;
 use serde_json::{Value, json};
 use std::collections::VecDeque;
 use std::net::Ipv4Addr;
+// explicit imports: do not rely on what the parent module happens to import
+#[allow(unused_imports)]
+use std::net::{IpAddr, SocketAddr};
+#[allow(unused_imports)]
+use std::sync::{Arc, Mutex};
 
 #[path = "/verif/harness/common/util.rs"]
 mod util;
